@@ -316,3 +316,298 @@ ADAPT_METRIC = Stream('cli_adapt_metric', cli_harness, None, gen_adapt, oracle=o
                       nontrivial=lambda op, out: out.startswith('rc=0'), timeout=900)
 DISTANCE = Stream('cli_distance', cli_harness, None, gen_distance, oracle=oracle_distance, kind='oracle',
                   nontrivial=lambda op, out: out.startswith('rc=0'), timeout=600)
+
+# ------------------------------------------------------------------ multiscale (C10)
+import math
+
+
+def scalar_fn(spec):
+    kind, _, args = spec.partition(':')
+    a = [float(x) for x in args.split(',')] if args else []
+    if kind == 'poly':
+        return lambda p: a[0] * p[0] ** 2 + a[1] * p[1] ** 2 + a[2] * p[2] ** 2 + a[3] * p[0] * p[1] + a[4] * p[0]
+    if kind == 'tanh':
+        return lambda p: math.tanh(a[0] * (p[0] + a[1] * p[1] - a[2]))
+    if kind == 'sin':
+        return lambda p: math.sin(a[0] * p[0]) * math.sin(a[1] * p[1] + 0.3) * math.cos(a[2] * p[2])
+    if kind == 'flat':  # zero-Hessian region: linear for x<0.5, quadratic beyond
+        return lambda p: a[0] * p[0] + (a[1] * (p[0] - 0.5) ** 2 if p[0] > 0.5 else 0.0) + 0.1 * p[1] * p[1]
+    if kind == 'const':
+        return lambda p: a[0]
+    raise ValueError('scalar ' + spec)
+
+
+def sc_multiscale(ctx, d, case):
+    dim, v, cells, mesh = make_mesh(d, case)
+    f = scalar_fn(d.get('field', 'poly:1,2,3,0.5,1'))
+    vals = [[f(tuple(p) + (0.0,) * (3 - len(p)))] for p in v]
+    sol = os.path.join(case, 'scalar.solb')
+    pyio.write_solb(sol, dim, vals, [1])
+    np = int(d.get('np', '0'))
+    args = ['multiscale', mesh, sol, d.get('complexity', '500'), os.path.join(case, 'metric.solb')]
+    if 'p' in d:
+        args += ['--norm-power', d['p']]
+    if 'grad' in d:
+        args += ['--gradation', d['grad']]
+    if 'ar' in d:
+        args += ['--aspect-ratio', d['ar']]
+    rc, tail = run_ref(ctx, np, args, case)
+    return 'rc=%d dir=%s' % (rc, case)
+
+
+def oracle_multiscale(ops, impl):
+    bad = []
+    for i, (op, line) in enumerate(zip(ops, impl)):
+        d = kv(op)
+        o = parse_out(line)
+        if o.get('rc') != '0':
+            if d.get('field', '').startswith('const'):
+                continue  # a zero Hessian everywhere has no finite complexity scaling: an error status is legitimate
+            bad.append((i, 'multiscale exited with status %s' % o.get('rc')))
+            continue
+        dim = int(d.get('dim', '3'))
+        m = pyio.read_meshb(os.path.join(o['dir'], 'in.meshb'))
+        s = pyio.read_solb(os.path.join(o['dir'], 'metric.solb'))
+        if len(s['values']) != len(m['verts']):
+            bad.append((i, 'metric file has %d entries for %d vertices' % (len(s['values']), len(m['verts']))))
+            continue
+        met = [meshgen.solb_metric_unrow(r, dim) for r in s['values']]
+        for n, mm in enumerate(met):
+            if not all(math.isfinite(x) for x in mm):
+                bad.append((i, 'C10 non-finite metric at vertex %d' % n))
+                break
+            ev = oracles.eig_sym3(mm)
+            if not ev[0] > 0:
+                bad.append((i, 'C10 metric at vertex %d not positive definite: eigenvalues %s' % (n, ev)))
+                break
+            if dim == 2 and (mm[2] != 0.0 or mm[4] != 0.0 or mm[5] != 1.0):
+                bad.append((i, 'C10 2-D embedding lost at vertex %d: %s' % (n, mm)))
+                break
+        else:
+            ct = float(d.get('complexity', '500'))
+            c = (oracles.complexity3d if dim == 3 else oracles.complexity2d)(m, met)
+            if abs(c - ct) > 1e-8 * ct:
+                bad.append((i, 'C10 complexity of the output field is %.12e, requested %.12e' % (c, ct)))
+    return bad
+
+
+def gen_multiscale(rng, tier, np=None):
+    ops = []
+    for _ in range(6 if tier == 'quick' else 30):
+        dim = rng.choice([2, 3, 3])
+        n = [rng.randint(2, 4) for _ in range(dim)]
+        field = rng.choice(['poly:%.2f,%.2f,%.2f,%.2f,%.2f' % tuple(rng.uniform(-3, 3) for _ in range(5)),
+                            'tanh:%.2f,%.2f,%.2f' % (rng.uniform(3, 20), rng.uniform(-1, 1), rng.uniform(0.2, 0.8)),
+                            'sin:%.2f,%.2f,%.2f' % (rng.uniform(1, 8), rng.uniform(1, 8), rng.uniform(0, 4)),
+                            'flat:%.2f,%.2f' % (rng.uniform(-2, 2), rng.uniform(1, 5))])
+        op = 'multiscale dim=%d n=%s jitter=%.2f mseed=%d field=%s complexity=%s' % (
+            dim, ','.join(map(str, n)), rng.choice([0, 0.3]), rng.randint(1, 10 ** 6), field,
+            rng.choice(['50', '500', '2000', '100000', '%.1f' % rng.uniform(50, 1e5)]))
+        if rng.random() < 0.7:
+            op += ' p=%s' % rng.choice(['1', '2', '4'])
+        if rng.random() < 0.7:
+            op += ' grad=%s' % rng.choice(['-1', '1.2', '1.5', '3'])
+        if rng.random() < 0.5:
+            op += ' ar=%s' % rng.choice(['-1', '1', '10', '1000'])
+        if np:
+            op += ' np=%d' % np
+        ops.append(op)
+    return ops
+
+
+# ------------------------------------------------------------------ interpolate (C11, C07)
+def field_fn(spec, ldim):
+    kind, _, args = spec.partition(':')
+    a = [float(x) for x in args.split(',')] if args else []
+    if kind == 'lin':
+        return lambda p: [a[0] + (k + 1) * (a[1] * p[0] + a[2] * p[1] + a[3] * p[2]) for k in range(ldim)]
+    if kind == 'gen':
+        return lambda p: [math.sin(a[0] * p[0] + k) * math.cos(a[1] * p[1]) + a[2] * p[2] * p[2] for k in range(ldim)]
+    raise ValueError(spec)
+
+
+def sc_interp(ctx, d, case):
+    dd = dict(d)
+    dim, v, cells, mesh = make_mesh(dd, case)
+    os.rename(mesh, os.path.join(case, 'donor.meshb'))
+    ldim = int(d.get('ldim', '1'))
+    f = field_fn(d.get('field', 'lin:1,2,3,4'), ldim)
+    pyio.write_solb(os.path.join(case, 'donor.solb'), dim, [f(tuple(p) + (0.0,) * (3 - len(p))) for p in v], [1] * ldim)
+    if d.get('same', '0') == '1':
+        pyio.write_meshb(os.path.join(case, 'rec.meshb'), dim, v, cells)
+    else:
+        rd = dict(d)
+        rd['n'] = d.get('rn', d.get('n'))
+        rd['mseed'] = d.get('rseed', '7')
+        rd['jitter'] = d.get('rjitter', '0.3')
+        if 'rlen' in d:
+            rd['len'] = d['rlen']
+        _, rv, rcells, rmesh = make_mesh(rd, case)
+        os.rename(rmesh, os.path.join(case, 'rec.meshb'))
+    np = int(d.get('np', '0'))
+    rc, tail = run_ref(ctx, np, ['interpolate', os.path.join(case, 'donor.meshb'), os.path.join(case, 'donor.solb'),
+                                 os.path.join(case, 'rec.meshb'), os.path.join(case, 'rec.solb')], case)
+    return 'rc=%d dir=%s' % (rc, case)
+
+
+def oracle_interp(ops, impl):
+    bad = []
+    for i, (op, line) in enumerate(zip(ops, impl)):
+        d = kv(op)
+        o = parse_out(line)
+        if o.get('rc') != '0':
+            bad.append((i, 'interpolate exited with status %s' % o.get('rc')))
+            continue
+        ldim = int(d.get('ldim', '1'))
+        rm = pyio.read_meshb(os.path.join(o['dir'], 'rec.meshb'))
+        ds = pyio.read_solb(os.path.join(o['dir'], 'donor.solb'))
+        rs = pyio.read_solb(os.path.join(o['dir'], 'rec.solb'))
+        if len(rs['values']) != len(rm['verts']) or rs['ldim'] != ldim:
+            bad.append((i, 'receptor field has %d x %d entries for %d vertices, ldim %d' %
+                        (len(rs['values']), rs['ldim'], len(rm['verts']), ldim)))
+            continue
+        for k in range(ldim):
+            lo = min(r[k] for r in ds['values'])
+            hi = max(r[k] for r in ds['values'])
+            eps = 1e-12 * max(abs(lo), abs(hi), 1e-300)
+            for n, r in enumerate(rs['values']):
+                if not (lo - eps <= r[k] <= hi + eps):
+                    bad.append((i, 'C11 receptor vertex %d component %d = %.17g leaves donor range [%.17g, %.17g]' % (n, k, r[k], lo, hi)))
+                    break
+        if d.get('same', '0') == '1':
+            for n, (a, b) in enumerate(zip(ds['values'], rs['values'])):
+                if any(abs(x - y) > 1e-12 * max(1.0, abs(x)) for x, y in zip(a, b)):
+                    bad.append((i, 'C11 interpolating onto the donor mesh itself changed vertex %d: %s -> %s' % (n, a, b)))
+                    break
+        elif d.get('field', 'lin').startswith('lin') and d.get('inside', '1') == '1':
+            f = field_fn(d['field'], ldim)
+            sc = max(max(abs(x) for x in r) for r in ds['values'])
+            for n, p in enumerate(rm['verts']):
+                ex = f(tuple(p) + (0.0,) * (3 - len(p)))
+                if any(abs(x - y) > 1e-10 * sc for x, y in zip(ex, rs['values'][n])):
+                    bad.append((i, 'C11 linear field not reproduced at receptor vertex %d (inside donor): %s vs %s' % (n, rs['values'][n], ex)))
+                    break
+    return bad
+
+
+def gen_interp(rng, tier, np=None):
+    ops = []
+    for _ in range(6 if tier == 'quick' else 30):
+        dim = rng.choice([2, 3, 3])
+        n = [rng.randint(2, 4) for _ in range(dim)]
+        rn = [rng.randint(2, 5) for _ in range(dim)]
+        mode = rng.random()
+        ldim = rng.randint(1, 10)
+        field = rng.choice(['lin:%.2f,%.2f,%.2f,%.2f' % tuple(rng.uniform(-3, 3) for _ in range(4)),
+                            'gen:%.2f,%.2f,%.2f' % tuple(rng.uniform(0.5, 6) for _ in range(3))])
+        op = 'interp dim=%d n=%s jitter=%.2f mseed=%d ldim=%d field=%s' % (
+            dim, ','.join(map(str, n)), rng.choice([0, 0.3]), rng.randint(1, 10 ** 6), ldim, field)
+        if mode < 0.25:
+            op += ' same=1'
+        elif mode < 0.8:
+            op += ' rn=%s rseed=%d rjitter=%.2f inside=1' % (','.join(map(str, rn)), rng.randint(1, 10 ** 6), rng.choice([0, 0.3]))
+        else:
+            # receptor slightly larger than the donor: vertices fall just outside (boundary mismatch)
+            op += ' rn=%s rseed=%d rjitter=0 inside=0 rlen=%s' % (','.join(map(str, rn)), rng.randint(1, 10 ** 6),
+                                                               ','.join(['1.02'] * 3))
+        if np:
+            op += ' np=%d' % np
+        ops.append(op)
+    return ops
+
+
+# ------------------------------------------------------------------ rank-count independence (C07)
+def sc_npindep(ctx, d, case):
+    """runs translate / distance / interpolate at np = 0 (serial), and at np=k; prints whether outputs agree"""
+    sub = d.get('sub', 'translate')
+    np = int(d.get('np', '2'))
+    env = {}
+    outs = []
+    for tag, k in (('s', 0), ('p', np)):
+        c2 = os.path.join(case, tag)
+        os.makedirs(c2, exist_ok=True)
+        dim, v, cells, mesh = make_mesh(d, c2)
+        if sub == 'translate':
+            rc, _ = run_ref(ctx, k, ['translate', mesh, os.path.join(c2, 'out.meshb')], c2)
+        elif sub == 'distance':
+            rc, _ = run_ref(ctx, k, ['distance', mesh, os.path.join(c2, 'out.solb'), '--viscous-tags', d.get('walls', '1')], c2)
+        else:
+            ldim = int(d.get('ldim', '2'))
+            f = field_fn(d.get('field', 'gen:1,2,3'), ldim)
+            pyio.write_solb(os.path.join(c2, 'donor.solb'), dim, [f(tuple(p) + (0.0,) * (3 - len(p))) for p in v], [1] * ldim)
+            rd = dict(d)
+            rd['n'] = d.get('rn', d.get('n'))
+            rd['mseed'] = d.get('rseed', '7')
+            os.rename(mesh, os.path.join(c2, 'donor.meshb'))
+            _, rv, rcells, rmesh = make_mesh(rd, c2)
+            os.rename(rmesh, os.path.join(c2, 'rec.meshb'))
+            rc, _ = run_ref(ctx, k, ['interpolate', os.path.join(c2, 'donor.meshb'), os.path.join(c2, 'donor.solb'),
+                                     os.path.join(c2, 'rec.meshb'), os.path.join(c2, 'out.solb')], c2)
+        outs.append(rc)
+    return 'rc=%d rcp=%d dir=%s' % (outs[0], outs[1], case)
+
+
+def canon_cells(m):
+    v = m['verts']
+    out = {}
+    for name, lst in m['cells'].items():
+        out[name] = sorted(tuple(sorted(tuple(v[n]) for n in c[:-1])) + (c[-1],) for c in lst)
+    return out
+
+
+def oracle_npindep(ops, impl):
+    bad = []
+    for i, (op, line) in enumerate(zip(ops, impl)):
+        d = kv(op)
+        o = parse_out(line)
+        if o.get('rc') != '0' or o.get('rcp') != '0':
+            bad.append((i, 'C07 %s exited with status serial=%s parallel=%s' % (d.get('sub'), o.get('rc'), o.get('rcp'))))
+            continue
+        sub = d.get('sub', 'translate')
+        if sub == 'translate':
+            a = pyio.read_meshb(os.path.join(o['dir'], 's', 'out.meshb'))
+            b = pyio.read_meshb(os.path.join(o['dir'], 'p', 'out.meshb'))
+            if a['verts'] != b['verts']:
+                bad.append((i, 'C07 translate: vertices differ between np=1 and np=%s (same order expected)' % d.get('np')))
+            elif canon_cells(a) != canon_cells(b):
+                bad.append((i, 'C07 translate: cell multiset differs between np=1 and np=%s' % d.get('np')))
+        else:
+            a = pyio.read_solb(os.path.join(o['dir'], 's', 'out.solb'))
+            b = pyio.read_solb(os.path.join(o['dir'], 'p', 'out.solb'))
+            if len(a['values']) != len(b['values']):
+                bad.append((i, 'C07 %s: %d vs %d entries' % (sub, len(a['values']), len(b['values']))))
+                continue
+            sc = max([max(abs(x) for x in r) for r in a['values']] + [1e-300])
+            tol = 0.0 if sub == 'distance' else 1e-12 * sc
+            for n, (x, y) in enumerate(zip(a['values'], b['values'])):
+                if any(abs(p - q) > tol for p, q in zip(x, y)):
+                    bad.append((i, 'C07 %s: vertex %d differs between np=1 and np=%s: %s vs %s' % (sub, n, d.get('np'), x, y)))
+                    break
+    return bad
+
+
+def gen_npindep(rng, tier, np=None):
+    ops = []
+    for _ in range(6 if tier == 'quick' else 24):
+        dim = rng.choice([2, 3, 3])
+        n = [rng.randint(2, 4) for _ in range(dim)]
+        sub = rng.choice(['translate', 'distance', 'interp'])
+        op = 'npindep sub=%s dim=%d n=%s jitter=%.2f mseed=%d np=%d' % (
+            sub, dim, ','.join(map(str, n)), rng.choice([0, 0.3]), rng.randint(1, 10 ** 6), np or rng.choice([2, 3, 4, 5]))
+        if sub == 'distance':
+            op += ' walls=%s' % ','.join(map(str, sorted(rng.sample(range(1, 5), rng.randint(1, 2)))))
+        if sub == 'interp':
+            op += ' ldim=%d rn=%s rseed=%d field=gen:%.2f,%.2f,%.2f' % (
+                rng.randint(1, 12), ','.join(str(rng.randint(2, 5)) for _ in range(dim)), rng.randint(1, 10 ** 6),
+                rng.uniform(0.5, 5), rng.uniform(0.5, 5), rng.uniform(0.5, 5))
+        ops.append(op)
+    return ops
+
+
+SCENARIOS.update({'multiscale': sc_multiscale, 'interp': sc_interp, 'npindep': sc_npindep})
+MULTISCALE = Stream('cli_multiscale', cli_harness, None, gen_multiscale, oracle=oracle_multiscale, kind='oracle',
+                    nontrivial=lambda op, out: out.startswith('rc=0'), timeout=900)
+INTERP = Stream('cli_interp', cli_harness, None, gen_interp, oracle=oracle_interp, kind='oracle',
+                nontrivial=lambda op, out: out.startswith('rc=0'), timeout=900)
+NPINDEP = Stream('cli_npindep', cli_harness, None, gen_npindep, oracle=oracle_npindep, kind='oracle',
+                 nontrivial=lambda op, out: out.startswith('rc=0 rcp=0'), timeout=900)
